@@ -74,6 +74,33 @@ pub unsafe extern "C" fn sched_yield() -> c_int {
     ret(sim::raw_syscall6(libc::SYS_sched_yield, 0, 0, 0, 0, 0, 0)) as c_int
 }
 
+/// sleeping is simulated: the clock jumps by the requested duration and the thread yields
+#[no_mangle]
+pub unsafe extern "C" fn nanosleep(req: *const libc::timespec, rem: *mut libc::timespec) -> c_int {
+    if !req.is_null() && sim::hook_sleep((*req).tv_sec as u64 * 1_000_000_000 + (*req).tv_nsec as u64) {
+        if !rem.is_null() {
+            (*rem).tv_sec = 0;
+            (*rem).tv_nsec = 0;
+        }
+        return 0;
+    }
+    ret(sim::raw_syscall6(libc::SYS_nanosleep, req as i64, rem as i64, 0, 0, 0, 0)) as c_int
+}
+
+#[no_mangle]
+pub unsafe extern "C" fn clock_nanosleep(clk: libc::clockid_t, flags: c_int, req: *const libc::timespec, rem: *mut libc::timespec) -> c_int {
+    if !req.is_null() && flags & libc::TIMER_ABSTIME == 0 && sim::hook_sleep((*req).tv_sec as u64 * 1_000_000_000 + (*req).tv_nsec as u64) {
+        if !rem.is_null() {
+            (*rem).tv_sec = 0;
+            (*rem).tv_nsec = 0;
+        }
+        return 0;
+    }
+    // (returns the error number itself, not -1/errno)
+    let r = sim::raw_syscall6(libc::SYS_clock_nanosleep, clk as i64, flags as i64, req as i64, rem as i64, 0, 0);
+    if r < 0 { (-r) as c_int } else { 0 }
+}
+
 #[no_mangle]
 pub unsafe extern "C" fn clock_gettime(clk: libc::clockid_t, ts: *mut libc::timespec) -> c_int {
     if let Some(ns) = sim::hook_clock(clk) {
